@@ -551,3 +551,110 @@ Proof.
     + apply rem_small_abs. apply (Hrange id a Ea).
 Qed.
 End EquWhole.
+
+Section EquCompile.
+Variable spell : N -> text.
+
+(* names in EQU bodies that are themselves EQU names refer downwards along a rank: no definition refers to itself,
+   directly or through others *)
+Definition ranked (ev : env) (rkN : N -> nat) : Prop :=
+  forall n e, In (n, e) ev -> forall x, In x (names e) -> forall n' e', In (n', e') ev -> spell x = spell n' -> (rkN n' < rkN n)%nat.
+
+Definition rk_text (ev : env) (rkN : N -> nat) (t : text) : nat :=
+  match find (fun ne => text_eqb (spell (fst ne)) t) ev with Some ne => S (rkN (fst ne)) | None => O end.
+
+Lemma graph_ranked cfg ev rkN :
+  (forall a b, In a (map fst ev) -> In b (map fst ev) -> spell a = spell b -> a = b) ->
+  (forall n, In n (map fst ev) -> ~ In (spell n) predefined) ->
+  ranked ev rkN ->
+  graph_has_cycle (build_graph (raw_table spell cfg ev)) = Some false.
+Proof.
+  intros Hinj Hnp Hrk. apply (ranked_no_cycle _ (rk_text ev rkN)).
+  intros k refs r Hg Hr. rewrite build_graph_bg in Hg. destruct (bg_in _ _ _ _ Hg) as [v [Hin Eref]]. subst refs.
+  destruct (key_refs_sub _ _ _ Hr) as [t [Ht [Ety [Etv Hhas]]]].
+  unfold raw_table in Hin. apply in_app_or in Hin. destruct Hin as [Hin|Hin].
+  - (* a predefined constant: its value is a number *)
+    exfalso. unfold load_constants in Hin. cbn [In] in Hin.
+    repeat (destruct Hin as [Hin|Hin]; [inversion Hin; subst; destruct Ht as [<-|[]]; discriminate Ety|]). exact Hin.
+  - unfold equ_entries in Hin. apply in_map_iff in Hin. destruct Hin as [[n e] [Ene Hne]]. cbn [fst snd] in Ene. inversion Ene; subst k v.
+    destruct (etoks_text' spell e t Ht Ety) as [x [Hx Ex]]. rewrite Etv in Ex. subst r.
+    assert (Hk : rk_text ev rkN (spell n) = S (rkN n)).
+    { unfold rk_text. destruct (find (fun ne => text_eqb (spell (fst ne)) (spell n)) ev) as [[n1 e1]|] eqn:Ef.
+      - apply find_some in Ef. destruct Ef as [F1 F2]. cbn [fst] in F2. apply text_eqb_eq in F2.
+        rewrite (Hinj n1 n); [reflexivity| | |exact F2]; apply in_map_iff; [exists (n1, e1)|exists (n, e)]; split; try reflexivity; assumption.
+      - exfalso. pose proof (find_none _ _ Ef (n, e) Hne) as X. cbn [fst] in X. rewrite text_eqb_refl in X. discriminate X. }
+    rewrite Hk. unfold rk_text. rewrite ?Ex. destruct (find (fun ne => text_eqb (spell (fst ne)) (spell x)) ev) as [[n' e']|] eqn:Ef.
+    2: lia.
+    apply find_some in Ef. destruct Ef as [F1 F2]. cbn [fst] in F2 |- *. apply text_eqb_eq in F2.
+    pose proof (Hrk n e Hne x Hx n' e' F1 (eq_sym F2)). lia.
+Qed.
+
+Theorem compile_program2 cfg org its es lines meta nm au code start rkN :
+  validate cfg = true -> renders_doc2 spell org its es ->
+  spell_ok spell (flat_map il_labels (instrs its) ++ map fst (equs its)) ->
+  ranked (equs its) rkN ->
+  essential lines = elines 0 es ->
+  meaning (mconf_of cfg) (mkProg its org None nm au []) = MOk code start ->
+  compile cfg lines meta = COk code start meta.
+Proof.
+  intros Hv Hrd Hsp Hrk Hess Hmean.
+  assert (Hm : (0 < c_size cfg)%N) by (unfold validate in Hv; destruct (c_size cfg <? 3)%N eqn:E; [discriminate Hv|lia]).
+  assert (Hlc : (c_len cfg <= c_size cfg)%N).
+  { unfold validate in Hv. destruct (c_size cfg <? c_len cfg)%N eqn:E; [|lia].
+    repeat (rewrite ?andb_false_r, ?andb_false_l in Hv). discriminate Hv. }
+  pose proof (r2_plain spell org its es Hrd) as Hplain.
+  set (ev := equs its) in *. set (ils := instrs its) in *. set (n := Z.of_nat (length ils)).
+  unfold meaning in Hmean. cbn [pr_items pr_end_labels pr_org pr_end] in Hmean.
+  rewrite (collect_plain its 0 [] [] [] Hplain) in Hmean. cbn [app map] in Hmean. rewrite app_nil_r in Hmean.
+  rewrite (assertions_plain _ _ _ its Hplain) in Hmean. fold ev ils in Hmean.
+  set (ls := lab_pairs 0 ils) in *.
+  destruct (meaning_code (mconf_of cfg) ev ls 0 ils []) as [code' s'| |] eqn:Emc; try discriminate.
+  destruct (meaning_code_length _ _ _ _ _ _ _ _ Emc) as [Elen _]. cbn [length Nat.add] in Elen.
+  destruct (mf_len (mconf_of cfg) <? Z.of_nat (length code')) eqn:El; [discriminate|].
+  cbn [mconf_of mf_len] in El.
+  destruct Hsp as [Hpre Hlab Hinj Hnd Hword].
+  assert (Hsp' : spell_ok spell (map fst ls ++ map fst ev)).
+  { unfold ls. rewrite lab_pairs_keys. constructor; assumption. }
+  assert (Hev_inj : forall a b, In a (map fst ev) -> In b (map fst ev) -> spell a = spell b -> a = b)
+    by (intros a b Ha Hb; apply Hinj; apply in_or_app; right; assumption).
+  assert (Hev_np : forall x, In x (map fst ev) -> ~ In (spell x) predefined)
+    by (intros x Hx; apply (Hlab x); apply in_or_app; right; exact Hx).
+  assert (Hev_nd : NoDup (map spell (map fst ev))).
+  { apply NoDup_map_spell; [|exact Hev_inj]. clear - Hnd. induction (flat_map il_labels ils) as [|a l IH]; [exact Hnd|]. cbn [app] in Hnd. inversion Hnd; subst. apply IH. assumption. }
+  (* the symbol tables *)
+  set (raw := raw_table spell cfg ev).
+  set (labt := set_all (spell_pairs spell ls) []).
+  set (se := match org with Some e => etoks spell e | None => [num_tok 0] end).
+  assert (Hsym : load_symbols cfg (elines 0 es) = mkC raw labt se).
+  { rewrite load_symbols_fold.
+    rewrite (r2_symbols spell cfg org its es Hrd 0 (load_constants cfg) [] [num_tok 0] 0); [reflexivity| |exact Hev_nd].
+    intros x Hx. apply Hev_np. exact Hx. }
+  assert (Henv : env_nn ev).
+  { clear - Hrd. unfold ev. intros id d H. apply env_find_entry in H.
+    induction Hrd as [|org l its t k es _ _ IH|org c k its es _ _ IH|e kw cmt k its es _ _ _ IH|org n0 e0 labs kw cmt k its es _ _ Hnn _ IH]; cbn [equs] in H; try (apply IH; exact H); [destruct H|].
+    destruct H as [H|H]; [inversion H; subst; exact Hnn|apply IH; exact H]. }
+  assert (Hac : graph_has_cycle (build_graph raw) = Some false) by (apply (graph_ranked cfg ev rkN Hev_inj Hev_np Hrk)).
+  destruct (expand_expressions_succeeds raw Hac) as [res Hres].
+  assert (Htabs : forall j, 0 <= j -> (j < n \/ j = 0) -> tables_ok spell (mconf_of cfg) ev ls raw labt (Z.of_N (c_size cfg)) j).
+  { intros j Hj0 Hj. apply (tables_hold spell cfg ev ls j Hsp'). intros id a Ha.
+    pose proof (lab_pairs_range spell _ _ _ _ Ha) as Hr. fold n in Hr. lia. }
+  rewrite <- compile_essential, Hess. unfold compile. rewrite Hv. cbn [negb]. rewrite Hsym.
+  cbn [c_values c_labels c_startexpr]. rewrite Hac.
+  rewrite (r2_assertions spell _ _ org its es Hrd 0). rewrite Hres.
+  rewrite (r2_assemble spell cfg ev ls raw res labt se org its es Hm Hrd Henv Hres 0 [] code' s').
+  - replace (c_len cfg <? N.of_nat (length code'))%N with false by lia.
+    destruct org as [eo|].
+    + (* ORG *)
+      destruct (value_at (mconf_of cfg) ev ls 0 eo) as [v| |] eqn:Evo; try discriminate.
+      assert (Hnn : Forall nn_ntok (nprint eo)).
+      { clear - Hrd. remember (Some eo) as o eqn:Eo. induction Hrd as [|org l its t k es _ _ IH|org c k its es _ _ IH|e kw cmt k its es _ Hn _ IH|org n0 e0 labs kw cmt k its es _ _ _ _ IH];
+          try discriminate Eo; try (apply IH; exact Eo). inversion Eo; subst. exact Hn. }
+      destruct (operand_equ spell (mconf_of cfg) ev ls raw labt se (Z.of_N (c_size cfg)) 0 (Htabs 0 ltac:(lia) (or_intror eq_refl)) Henv res Hres (length res) eo v Hnn Evo) as [xs [X1 X2]].
+      unfold expand_fuel. cbn [c_values c_startexpr]. unfold se in *. rewrite X1, X2.
+      destruct ((v <? 0) || (negb (v =? 0) && (Z.of_nat (length code') <=? v))); [discriminate|]. inversion Hmean; subst. reflexivity.
+    + inversion Hmean; subst code' start. unfold expand_fuel. cbn [c_values c_startexpr]. unfold se.
+      rewrite expand_expression_plain by (repeat constructor; cbn; discriminate). rewrite eval_num. reflexivity.
+  - intros j Hj. apply Htabs; fold ils n in Hj; lia.
+  - exact Emc.
+Qed.
+End EquCompile.
